@@ -16,3 +16,10 @@ ASSUMPTIONS = [
     "a message 'describes' a condition when it contains one keyword of every group listed for the code in Spec/ErrWords.lean",
 ]
 PARTIAL = []
+LEVEL_TEXT = ("Proof, exhaustive: the quantifier is the finite table of result codes in cif.h. The table and the cif_errlist "
+              "initialiser are re-extracted from the working tree on every run and the Lean theorems C20_table / C20_distinct / "
+              "C20_nerr_is_length / C20_codes_unique are re-decided by the kernel over them; the compiled table is compared with "
+              "the extracted one for every code.")
+LEVEL_NOTE = ("Trusted: Lean kernel; tools/translate.py (cross-checked by printing the compiled cif_errlist); the keyword table of "
+              "Spec/ErrWords.lean as the meaning of 'describes that very condition'. No axioms beyond propext/Quot.sound.")
+TECHNIQUE = "Lean 4 kernel decision (decide +kernel) over data translated from the source on every run"
